@@ -599,10 +599,6 @@ pub fn cases(tier: Tier) -> Vec<Case> {
     let mut seqs = Vec::new();
     rec(&mut Vec::new(), maxlen, &mut seqs);
     for s in seqs {
-        // canonical start: smallest index first (rotations of a cyclic sequence are the same polygon)
-        if s[0] != *s.iter().min().unwrap() {
-            continue;
-        }
         out.push(c("polygon", s, 0, 0.0));
     }
     // scripted uniform sampling: all draw triples over the 6-value alphabet
